@@ -74,6 +74,13 @@ theorem slice_append_right (a b : Bytes) (o n : Nat) (h : a.length ≤ o) :
   rw [List.drop_append, List.drop_of_length_le (by omega)]
   simp
 
+/-- a slice of a slice -/
+theorem slice_slice (b : Bytes) (o n o' n' : Nat) (h : o' + n' ≤ n) : slice (slice b o n) o' n' = slice b (o + o') n' := by
+  unfold slice
+  rw [List.drop_take, List.take_take, List.drop_drop]
+  congr 1
+  omega
+
 theorem rdBE_at (a c : Bytes) (n v off : Nat) (h : v < 256 ^ n) (ho : off = a.length) :
     rdBE (a ++ beEnc n v ++ c) off n = some v := by
   subst ho
